@@ -22,7 +22,8 @@ ASSUMPTIONS = ["signature/key changes fall on bar boundaries of the meta track (
                "no event sits exactly on the final tick of a track that ends on a bar line (would start one more, empty, bar)"]
 TIERS = {"quick": dict(shards=8, examples=1500), "thorough": dict(size=2, shards=16, examples=15000)}
 
-SIGS = [(4, 4), (3, 4), (2, 4), (6, 8), (3, 8), (5, 8), (2, 2), (1, 4), (12, 8), (7, 8), (4, 4), (2, 8)]
+SIGS = [(4, 4), (3, 4), (2, 4), (6, 8), (3, 8), (5, 8), (2, 2), (1, 4), (12, 8), (7, 8), (4, 4), (2, 8),
+        (3, 16), (5, 16), (7, 32), (6, 64), (2, 64), (10, 64), (12, 128), (1, 8), (1, 1), (4, 3), (5, 6)]
 DEFAULT_VALUES = [24, 12, 6, 16, 8, 4, 36, 18, 9]
 
 
@@ -61,7 +62,7 @@ def _case(draw, size=1):
                                  st.integers(0, total + 60)))
         multi = draw(st.integers(0, 3)) == 0
         lengths = DEFAULT_VALUES if requant else None
-        notes = draw(gens.wellformed_notes(channels=(0, 1) if multi else (i,), pitches=(60, 62, 64), max_notes=7,
+        notes = draw(gens.wellformed_notes(channels=(0, 1) if multi else (i,), pitches=draw(st.sampled_from([(60, 62, 64), (60, 62, 64), (21, 108), (0, 127, 60)])), max_notes=7,
                                            max_len=120, max_gap=90, start_max=max(0, dur), lengths=lengths))
         notes = [n for n in notes if n[3] <= dur]
         meta = (sig_events + key_events) if i == m else []
